@@ -198,6 +198,7 @@ def run : List String → String
           | none => "spec-bug-undecodable"
     | none => "bad-op"
   | ["conc", _, _, _, _] => "ok"
+  | ["concx", _, _, _] => "ok"
   | "nopanic" :: _ => "done"          -- C01: the consumer returns a value or an error
   | ["copycycle", _, _] => "ok"        -- C02.path_bounds: at most D dereferences along any path     -- Props.C02.budget_conc: granted + remaining ≤ T on every interleaving
   | _ => "bad-op"
